@@ -752,9 +752,12 @@ func (c *Ctx) callCallback(fv *Val, name string, args []*Val, x *ast.CallExpr) *
 		v := c.evalSpec(g.E)
 		c.rootGhostFrame().Ghost[g.Name] = v
 	}
+	// in the callback's postconditions old() is the state in which it was called
+	c.Fr.OldHeap, c.Fr.OldTop = oldHeap, oldTop
 	for _, e := range cb.Ensures {
 		c.assume(c.evalSpecBool(e.E))
 	}
+	c.framePreserved(keep)
 	c.Fr.OldHeap, c.Fr.OldTop, c.Fr.OldEpoch = savedOld, savedOldTop, savedEpoch
 	c.bound = saved
 	switch n {
@@ -1072,4 +1075,118 @@ func (c *Ctx) callWithLiteral(cf, callerFr *Frame, ct *Contract, cb *CallbackSpe
 		panic(pathEnd{"foreach body end"})
 	}
 	// the callee returns: its postconditions hold of the (invariant-constrained) state
+}
+
+// framePreserved: after a callback that preserves the listed locations, every opaque function applied to an x whose
+// whole footprint lies within the preserved locations keeps its value (c.Fr.OldHeap is the pre-call heap).
+func (c *Ctx) framePreserved(keep []ModEntry) {
+	if len(c.opaqueApps) == 0 || c.inAutoFrame || len(keep) == 0 {
+		return
+	}
+	c.inAutoFrame = true
+	defer func() { c.inAutoFrame = false }()
+	apps := append([]opaqueApp{}, c.opaqueApps...)
+	for _, app := range apps {
+		x := app.x
+		var cond Term
+		okc := true
+		func() {
+			defer func() {
+				if r := recover(); r != nil {
+					if _, isRef := r.(refusal); isRef {
+						okc = false
+						return
+					}
+					panic(r)
+				}
+			}()
+			savedOld := c.inOld
+			c.inOld = true
+			fx := c.footprintEntries(x, nil, True, "framePreserved")
+			c.inOld = savedOld
+			var conj []Term
+			for _, p := range fx {
+				if len(p.qvars) > 0 {
+					okc = false
+					return
+				}
+				for _, h := range p.heaps {
+					var alts []Term
+					for _, k := range keep {
+						if len(k.qvars) > 0 {
+							continue
+						}
+						for _, kh := range k.heaps {
+							if kh.name == h.name {
+								alts = append(alts, And(k.guard, Eq(k.id, p.id)))
+							}
+						}
+					}
+					conj = append(conj, Implies(p.guard, Or(alts...)))
+				}
+			}
+			cond = And(conj...)
+		}()
+		if !okc || (cond.B != nil && !*cond.B) {
+			continue
+		}
+		if cond.B == nil {
+			cn := c.fresh("kept", SBool)
+			c.assume(Eq(cn, cond))
+			cond = cn
+		}
+		var names []string
+		for n := range app.pi.Spec.Funs {
+			names = append(names, n)
+		}
+		sort.Strings(names)
+		for _, n := range names {
+			sf := app.pi.Spec.Funs[n]
+			if !sf.Opaque || sf.Body == nil || len(sf.Params) == 0 {
+				continue
+			}
+			func() {
+				defer func() {
+					if r := recover(); r != nil {
+						if _, isRef := r.(refusal); isRef {
+							return
+						}
+						panic(r)
+					}
+				}()
+				saved := c.Fr
+				c.Fr = &Frame{Pkg: app.pi, Vars: map[types.Object]*Val{}, Boxed: map[types.Object]Term{}, ByName: map[string][]types.Object{},
+					Ghost: map[string]*Val{}, Ints: app.pi.Spec.Ints, Floats: app.pi.Spec.Floats, OldHeap: saved.OldHeap, OldTop: saved.OldTop}
+				pt, _ := c.specSort(sf.Params[0].Type)
+				args := []*Val{x}
+				var extra []Term
+				okT := pt != nil && x.Typ != nil && types.AssignableTo(x.Typ, pt)
+				if okT {
+					for _, p := range sf.Params[1:] {
+						bv, ts := c.bindVar(p, "q")
+						args = append(args, bv)
+						extra = append(extra, ts...)
+					}
+				}
+				c.Fr = saved
+				if !okT {
+					return
+				}
+				savedOld := c.inOld
+				c.inOld = true
+				pre := c.applySpecFun(app.pi, sf, args)
+				c.inOld = false
+				post := c.applySpecFun(app.pi, sf, args)
+				c.inOld = savedOld
+				if (pre.K != VScalar && pre.K != VLogic) || pre.T.S == post.T.S {
+					return
+				}
+				eq := StructEq(post.T, pre.T)
+				if len(extra) > 0 {
+					eq = Forall(extra, eq, []Term{post.T})
+				}
+				c.assume(Implies(cond, eq))
+			}()
+		}
+	}
 }
